@@ -139,6 +139,9 @@ static void print_plan(void)
 static char * * script; static int nscript, script_pos;
 static buf_t fn_buf; static int fn_live;
 
+/* what THIS caller has told the library (not what the library has latched): no input is offered after end-of-input */
+static int said_eoi;
+
 static size_t input_fn(void * state, soxr_in_t * data, size_t req)
 {
   char const * tok = script_pos < nscript? script[script_pos] : (nscript? script[nscript - 1] : "e");
@@ -148,7 +151,7 @@ static size_t input_fn(void * state, soxr_in_t * data, size_t req)
   if (fn_live) { free_buf(&fn_buf); fn_live = 0; }          /* the previous block dies: a stale read is a use-after-free */
   if (tok[0] == 'f') { *data = 0; return 0; }
   if (tok[0] == 'd') { n = (size_t)strtoull(tok + 1, 0, 10); if (n > req) n = req; }
-  if (!n) { *data = &S; return 0; }
+  if (!n) { *data = &S; said_eoi = 1; return 0; }
   fn_buf = make_buf(itype, n, 1); fn_live = 1;
   pos += n;
   *data = fn_buf.arg;
@@ -204,7 +207,7 @@ static void do_create(char * * t, int nt)
   mis = (unsigned)kvu(t, nt, "mis", 0); avoid = (int)kvu(t, nt, "avoid", 0);
   if (S) soxr_delete(S);
   S = soxr_create(ir, orr, ch, &err, &io, &q, &rt);
-  pos = 0; ratio = ir != 0 && orr != 0? ir / orr : 0; is_cr = 0;
+  pos = 0; ratio = ir != 0 && orr != 0? ir / orr : 0; is_cr = 0; said_eoi = 0;
   if (!S) { printf("< CREATE err %s\n", err); return; }
   printf("< CREATE ok\n");
   after_init();
@@ -215,13 +218,14 @@ static void run_process(int hasIn, int flushReq, int useIdone, size_t ilen, size
   buf_t in, out; size_t idone = 0, odone = 0, wext = 0; soxr_error_t e = 0; int have_in = 0, have_out = 0;
   script = scr; nscript = nscr; script_pos = 0;
   if (!S->resamplers) { printf("< not-initialised\n"); return; }
-  if (hasIn && S->flushing) { hasIn = 0; flushReq = 0; ilen = 0; }   /* no input after end-of-input (outside the contract) */
+  if (hasIn && said_eoi) { hasIn = 0; flushReq = 0; ilen = 0; }   /* no input after end-of-input (outside the contract) */
   if (!null_out) { out = make_buf(otype, olen, 0); have_out = 1; pattern_buf(&out, otype, olen); }
   if (is_pull) odone = soxr_output(S, out.arg, olen);
   else {
     if (hasIn) { in = make_buf(itype, ilen, 1); have_in = 1; }
     e = soxr_process(S, hasIn? in.arg : 0, flushReq && hasIn? ~ilen : ilen, useIdone? &idone : 0, null_out? 0 : out.arg, null_out? 0 : olen, &odone);
     if (!useIdone) idone = hasIn && !S->error? ilen : 0;
+    if (!hasIn || (flushReq && idone == ilen)) said_eoi = 1;
     pos += idone;
     if (have_in) free_buf(&in);
   }
@@ -277,7 +281,7 @@ int main(void)
       soxr_error_t e = soxr_clear(S);
       if (!e && !S->resamplers && ratio > 0) e = soxr_set_io_ratio(S, ratio, 0);   /* recipes without RESET_ON_CLEAR */
       if (S->resamplers) S->seed = 1;
-      pos = 0; slew_left = 0; ratio = ratio0;                      /* soxr_clear re-creates with the initial ratio */
+      pos = 0; slew_left = 0; ratio = ratio0; said_eoi = 0;                      /* soxr_clear re-creates with the initial ratio */
       printf("< clear %s\n", e? e : "ok");
     }
     else printf("< bad-op %s\n", t[0]);
